@@ -74,7 +74,7 @@ def run_case(case) -> Result:
             # that is large compared with the curvature radius of the manifold, or a leading error coefficient that nearly
             # cancels at this step size): halve further, up to three more times, and judge the last two orders - a scheme
             # whose local error really is O(eps^2) stays at 2.0
-            o = [math.log2(errs[j] / errs[j + 1]) for j in range(len(errs) - 1) if errs[j + 1] > 0]
+            o = [math.log2(errs[j] / errs[j + 1]) for j in range(len(errs) - 1) if errs[j + 1] > 0 and errs[j] > 0]
             if not (len(o) >= 2 and max(o[-2:]) < 2.5 and o[-1] > 1.8 and errs[-1] > 1e-9 and k < 6):
                 break
             res.classes.append("extra-halving")
@@ -104,7 +104,11 @@ def run_case(case) -> Result:
         herrs.append(abs(model.h(np.asarray(new.pos), np.asarray(new.mom)) - h0))
     res.nontrivial = errs[0] > 1e-7
     res.extra["cases_with_order_judged"] = 0
-    if errs[2] > 1e-8:
+    # below these floors the error is that of the iterative solver (default tolerance 1e-9, amplified), not of the
+    # discretisation, and says nothing about the order
+    precise = ispec.get("tight", True) or it in dyn.EXPLICIT
+    floor_z, floor_h = (1e-8, 1e-9) if precise else (1e-6, 1e-6)
+    if errs[2] > floor_z:
         o1, o2 = math.log2(errs[-3] / errs[-2]), math.log2(errs[-2] / errs[-1])
         res.extra["cases_with_order_judged"] = 1
         res.classes.append(f"order~{min(4, max(0, round(max(o1, o2))))}")
@@ -112,7 +116,7 @@ def run_case(case) -> Result:
             res.fail(f"C06:{label}:local-order", f"{label} on {spec['cls']}: one-step errors {errs} for eps0={eps0:.4g} "
                      f"halved {len(errs) - 1} times: last observed orders {o1:.2f}, {o2:.2f} (< 2.5): the step does not follow the exact flow "
                      f"of the documented Hamiltonian over time eps to second order", errs=errs)
-    if herrs[2] > 1e-9:
+    if herrs[2] > floor_h and herrs[0] > herrs[2]:
         e1, e2 = math.log2(herrs[0] / herrs[1]), math.log2(herrs[1] / herrs[2])
         if max(e1, e2) < 1.7:
             res.fail(f"C06:{label}:energy-order", f"{label} on {spec['cls']}: one-step energy errors {herrs}: observed "
